@@ -41,7 +41,7 @@ RULES = {
 
 ASSUMPTIONS = {
     "*": [
-        "domain: chunk >= 1, sub_chunks >= 1 and <= chunk, channels >= 1, sinc_len >= 8, oversampling >= 1 "
+        "domain: chunk >= 1, sub_chunks >= 1 (also larger than the chunk size), channels >= 1, sinc_len >= 8, oversampling >= 1 "
         "(>= 2 for Cubic/Quadratic: oversampling 1 is the open known finding D13), finite positive ratios, sizes < 2^20",
         "x86_64 only: the aarch64/NEON kernels are never compiled here",
         "sampling, not proof: verdicts are 'held on the executions observed'",
@@ -218,4 +218,17 @@ META.update({
     "C02": dict(technique="runtime monitoring: impulse-response extraction + exact stop-band maximum of the live prototype (layer A); phase-averaged stop-band / image power of end-to-end tone runs (layer B)",
                 text="Exploration. Layer A: for every window over the length grid the live prototype's response beyond f_cutoff + (1-cutoff)/min(1,ratio) stays below the window's rejection figure and the gain at f_cutoff is 0.5. Layer B: stop-band tones and up-sampling images through the real resamplers, output power averaged over two phases, against figure - 3.5 dB + 2x textbook bound; FFT types -100 dB.",
                 note="Per-component / power-sum reading of 'attenuated by' (coherent tone+image at integer ratios reads 6 dB higher); FFT blocks restricted to >= 32 frames.", design="5/C02"),
+})
+
+ASSUMPTIONS.update({
+    "C01": ["absolute far-stop-band figures enforced for f_cutoff <= 0.9*calculate_cutoff only; 2 dB guard on leakage figures, 25% guard on amplitude tolerances; FFT blocks in [32, 16384] frames"],
+    "C02": ["per-component / power-sum reading of the rejection figures (figure - 3.5 dB end-to-end: two coincident components + 0.5 dB guard); FFT blocks >= 32 frames; prototype checks in f64"],
+    "C05": ["constant ratio (optionally set once before the first call); tolerance = worst-case accumulated position rounding x largest slope; Nearest-mode frames whose quantised instants differ by one grid step between the twins are excluded and counted"],
+    "C06": ["partial/flush calls are not part of these histories (zero padding breaks the index signal); resolution 1e-9 or 256 ulp of the instant; windows reaching past the supplied data with rounding-level weight are counted, not flagged"],
+    "C07": ["constant ratio; zero-valued input (counts do not depend on sample values)"],
+    "C12": ["a band of 2 ulp outside each computed bound is indeterminate (either answer accepted)"],
+    "C14": ["pulse sigma >= 4/min(1, current ratio, construction ratio) input frames so that the pulse passes the (not rebuilt) anti-aliasing table intact"],
+    "C15": ["AVX+FMA and SSE3 available on this CPU; Miri executes the same intrinsics with tree borrows and deterministic floats"],
+    "C17": ["K = 16+L/2 (sinc), 32 (polynomial), 64+16*log2(2*FFT block) (FFT); gain clause 32+L/8 resp. K/4"],
+    "C18": ["schedules are sampled, not enumerated; ThreadSanitizer and Miri only see the synchronisation and accesses of the executions produced"],
 })
